@@ -92,6 +92,12 @@ def method_checks(name, obj, rng, want_safe=None):
             out.append((f"{meth}:jit==eager", same(jitted, eager, 1e-9), ""))
         except Exception as ex:
             out.append((f"{meth}:jit==eager", False, type(ex).__name__ + ": " + str(ex)[:120]))
+        # jit with the OBJECT as a traced argument (how a training step sees a model: its array leaves are tracers, the rest static)
+        try:
+            jitted = eqx.filter_jit(lambda o, a, c, meth=meth: getattr(o, meth)(a, c))(obj, x, cond)
+            out.append((f"{meth}:jit(object as argument)==eager", same(jitted, eager, 1e-9), ""))
+        except Exception as ex:
+            out.append((f"{meth}:jit(object as argument)==eager", False, type(ex).__name__ + ": " + str(ex)[:120]))
         # repeated call
         out.append((f"{meth}:repeat", same(getattr(obj, meth)(x, cond), eager, 0.0), ""))
         # vmap over inputs (and conditions) == loop
@@ -202,6 +208,54 @@ def fresh_model_checks(rng):
     return out
 
 
+JIT_FIRST_SCRIPT = r"""
+import json, sys
+import jax
+jax.config.update("jax_enable_x64", True)
+import equinox as eqx, jax.numpy as jnp, numpy as np, random
+sys.path.insert(0, sys.argv[1])
+import fj
+from props import c13
+from props.c14 import same
+rng = random.Random(int(sys.argv[2]))
+out = []
+zoo = c13.zoo()
+for name in zoo:
+    obj = zoo[name]()
+    shape, cs = tuple(obj.shape), obj.cond_shape
+    x = jnp.asarray(np.asarray([rng.uniform(-0.9, 0.9) for _ in range(int(np.prod(shape)) or 1)]).reshape(shape))
+    cond = jnp.asarray(np.asarray([rng.uniform(-1, 1) for _ in range(int(np.prod(cs)) or 1)]).reshape(cs)) if cs is not None else None
+    for m in fj.METHODS:
+        meth = fj.PYMETH[m]
+        try:
+            j1 = eqx.filter_jit(getattr(obj, meth))(x, cond)        # the FIRST call of this method in this process is traced
+        except NotImplementedError:
+            continue
+        except Exception as ex:
+            out.append([name, meth + ":jit-first", False, type(ex).__name__ + ": " + str(ex)[:100]]); continue
+        try:
+            e = getattr(obj, meth)(x, cond)                          # then eagerly
+            j2 = eqx.filter_jit(lambda o, a, c: getattr(o, meth)(a, c))(obj, x, cond)   # then a fresh trace
+            out.append([name, meth + ":jit-first-then-eager", bool(same(j1, e, 1e-9) and same(j2, e, 1e-9)), ""])
+        except Exception as ex:
+            out.append([name, meth + ":jit-first-then-eager", False, type(ex).__name__ + ": " + str(ex)[:100]])
+print("RESULT" + json.dumps(out))
+"""
+
+
+def jit_first_checks(seed):
+    """A FRESH interpreter in which the first call of every method is a traced one (then eager, then a new trace): module-level caches
+    or other hidden state written during tracing would leak tracers / stale values into later calls.  -> [(object, check, ok, detail)]"""
+    import subprocess, sys, os, json
+    here = os.path.dirname(os.path.dirname(os.path.abspath(__file__)))
+    env = dict(os.environ, JAX_PLATFORMS="cpu")
+    r = subprocess.run([sys.executable, "-W", "ignore", "-c", JIT_FIRST_SCRIPT, here, str(seed)], capture_output=True, text=True, env=env, timeout=1500)
+    for line in r.stdout.splitlines():
+        if line.startswith("RESULT"):
+            return [tuple(t) for t in json.loads(line[6:])]
+    return [("<subprocess>", "jit-first:harness", False, (r.stderr or r.stdout)[-300:])]
+
+
 def extra_dists(rng):
     k = jr.PRNGKey(3)
     base = D.StandardNormal((3,))
@@ -233,8 +287,14 @@ def corr(c, tier, rng):
     lines, wants, infos = [], [], []
     names = list(zoo)
     if tier == "quick":
+        # one object of EVERY class first, then random others
         rng.shuffle(names)
-        names = names[:34]
+        seen, first, rest = set(), [], []
+        for n in names:
+            cls_n = type(zoo[n]()).__name__
+            (rest if cls_n in seen else first).append(n)
+            seen.add(cls_n)
+        names = (first + rest)[:max(34, len(first))]
     lines.append("tracetable")
     wants.append(None)
     infos.append({})
@@ -277,6 +337,11 @@ def corr(c, tier, rng):
             lines.append(f"tracesafe AbstractDistribution {meth}")
             wants.append(("method", [(f"{meth}:{r[0]}", r[1], r[2]) for r in res if r[0].startswith(meth)]))
             infos.append(dict(object=name, cls="AbstractDistribution", method=meth))
+    for name, chk, ok, detail in jit_first_checks(rng.randrange(2 ** 30)):
+        c.case((name, chk), True)
+        c.count("jit-first-in-fresh-process")
+        if not ok:
+            c.mismatch("real-tracer-transparency", object=name, check=chk, detail=detail)
     for name, chk, ok, detail, nontrivial in fresh_model_checks(rng):
         c.case((name, chk), nontrivial)
         c.count("fresh-model-serialisation")
@@ -315,6 +380,12 @@ def corr(c, tier, rng):
 def search(hints, tier, rng):
     """the property's own oracle on the real code only: jit / vmap / repeat / flatten / serialise transparency"""
     wit = []
+    sd = rng.randrange(2 ** 30)
+    for name, chk, ok, detail in jit_first_checks(sd):
+        if not ok:
+            wit.append(dict(key=f"{name}|{chk}", object=name, check=chk, detail=detail, kind="jit_first", seed=sd))
+    if len(wit) >= 5:
+        return wit[:5]
     for name, chk, ok, detail, _ in fresh_model_checks(rng):
         if not ok:
             wit.append(dict(key=f"{name}|{chk}", object=name, check=chk, detail=detail, kind="fresh"))
@@ -341,6 +412,8 @@ def replay(w):
     if w.get("kind") == "bijection":
         obj = c13.zoo()[w["object"]]()
         return any(chk == w["check"] and not ok for chk, ok, _ in method_checks(w["object"], obj, rng))
+    if w.get("kind") == "jit_first":
+        return any(n == w["object"] and chk == w["check"] and not ok for n, chk, ok, _ in jit_first_checks(w.get("seed", 0)))
     if w.get("kind") == "fresh":
         return any(n == w["object"] and chk == w["check"] and not ok for n, chk, ok, _, _ in fresh_model_checks(rng))
     return bool(search({}, "quick", rng))
